@@ -75,7 +75,8 @@ theorem filterRegex_hosts (cfg : Cfg) (hfix : cfg.fixRemoveDepth = true) (m : St
     (pat : Str) (e : EL) (hid : e.IdsOk) (hg : e.Good) (hf : ∀ q ∈ e.ranges, q.PrintsFull cfg) (hits : e.its = [])
     (hm : ∀ h ∈ e.hosts, (m h).isSome = true) :
     ∃ e', filterRegex cfg m exclude pat e = .ok e' ∧ e'.hosts = e.hosts.filter (keepOf m exclude) ∧ e'.Good := by
-  obtain ⟨e', h1, h2, _, h4, _, _⟩ := filterRegex_spec cfg hfix m exclude pat e hid hg hf hits hm
+  obtain ⟨e', h1, h2, _, h4, _, _⟩ := filterRegex_spec cfg hfix (·.PrintsFull cfg)
+    (fun _ _ h hw hh hs => narrow_of_le h hw hh hs) (fun _ h => h) m exclude pat e hid hg hf hits hm
   exact ⟨e', h1, h2, h4⟩
 
 /-- `wcoll_apply_regex` (repaired D19): the hosts that pass EVERY filter of `regex_list` stay;
@@ -84,7 +85,8 @@ theorem applyRegex_hosts (cfg : Cfg) (hfix : cfg.fixRemoveDepth = true) (env : E
     (hid : e.IdsOk) (hg : e.Good) (hf : ∀ q ∈ e.ranges, q.PrintsFull cfg) (hits : e.its = [])
     (hm : ∀ p ∈ rs, ∀ h ∈ e.hosts, (env.rematch p.2 h).isSome = true) :
     ∃ e', applyRegex cfg env rs e = .ok e' ∧ e'.hosts = e.hosts.filter (keepAll env rs) ∧ e'.Good := by
-  obtain ⟨e', h1, h2, _, h4, _, _⟩ := applyRegex_spec cfg hfix env rs e hid hg hf hits hm
+  obtain ⟨e', h1, h2, _, h4, _, _⟩ := applyRegex_spec cfg hfix (·.PrintsFull cfg)
+    (fun _ _ h hw hh hs => narrow_of_le h hw hh hs) (fun _ h => h) env rs e hid hg hf hits hm
   exact ⟨e', h1, h2, h4⟩
 
 /-! ### the buffer loop of `list_push_hostlist` (D2) -/
